@@ -5,9 +5,11 @@
  *
  * script lines:
  *   R name
- *   C op ca hasmask sfcode mfcode dfcode pres sw sx mw mx dw dx w SRC MSK DST
+ *   C op ca hasmask sfcode mfcode dfcode pres mpres sw sx mw mx dw dx w SRC MSK DST
  *       pres: 0 plain | 1 integer translation (+3 pixels, request shifted back) | 2 scale: two destination
  *             pixels per source pixel | 3 PAD repeat (sx may leave the image) | 4 scale 1 + 1/65536
+ *             | 5 1x1 image with NORMAL repeat (a solid source) | 6 PAD repeat and scale 1 + 1/65536
+ *       mpres: 0 plain | 1 1x1 mask image with NORMAL repeat (a solid mask)
  *       SRC MSK DST: hex bytes of one row (MSK "-" without mask; DST "=" keeps the destination of the
  *       previous line: a chain of operations on one destination)
  */
@@ -60,12 +62,12 @@ main (int argc, char **argv)
 	}
 	else if (kind[0] == 'C')
 	{
-	    int op, ca, hasmask, pres, sw, sx, mw, mx, dw, dx, w, slen, mlen = 0, fresh, rx;
+	    int op, ca, hasmask, pres, mpres, sw, sx, mw, mx, dw, dx, w, slen, mlen = 0, fresh, rx;
 	    unsigned sfcode, mfcode, dfcode;
 	    uint8_t *src, *msk = NULL, *before, *src0, *msk0 = NULL;
 	    pixman_image_t *s, *m = NULL, *d;
-	    if (fscanf (in, "%d %d %d %u %u %u %d %d %d %d %d %d %d %d", &op, &ca, &hasmask, &sfcode, &mfcode, &dfcode,
-			&pres, &sw, &sx, &mw, &mx, &dw, &dx, &w) != 14) return 3;
+	    if (fscanf (in, "%d %d %d %u %u %u %d %d %d %d %d %d %d %d %d", &op, &ca, &hasmask, &sfcode, &mfcode, &dfcode,
+			&pres, &mpres, &sw, &sx, &mw, &mx, &dw, &dx, &w) != 15) return 3;
 	    if (fscanf (in, "%65535s", tok) != 1) return 3;
 	    src = parse_hex (tok, &slen);
 	    if (fscanf (in, "%65535s", tok) != 1) return 3;
@@ -91,6 +93,8 @@ main (int argc, char **argv)
 		m = pixman_image_create_bits (mfcode, mw, 1, (uint32_t *)msk, mlen);
 		if (!m) return 3;
 		pixman_image_set_component_alpha (m, ca);
+		if (mpres == 1)
+		    pixman_image_set_repeat (m, PIXMAN_REPEAT_NORMAL);
 	    }
 	    if (!s || !d) { fprintf (stderr, "drv_composite: cannot create images\n"); return 3; }
 	    rx = sx;
@@ -109,13 +113,17 @@ main (int argc, char **argv)
 	    }
 	    else if (pres == 3)
 		pixman_image_set_repeat (s, PIXMAN_REPEAT_PAD);
-	    else if (pres == 4)
+	    else if (pres == 5)
+		pixman_image_set_repeat (s, PIXMAN_REPEAT_NORMAL);
+	    else if (pres == 4 || pres == 6)
 	    {
 		pixman_transform_t t;
 		pixman_transform_init_scale (&t, pixman_fixed_1 + 1, pixman_fixed_1);
 		pixman_image_set_transform (s, &t);
+		if (pres == 6)
+		    pixman_image_set_repeat (s, PIXMAN_REPEAT_PAD);
 	    }
-	    if (pres == 1 || pres == 2 || pres == 4)
+	    if (pres == 1 || pres == 2 || pres == 4 || pres == 6)
 		pixman_image_set_filter (s, PIXMAN_FILTER_NEAREST, NULL, 0);
 
 	    pixman_image_composite32 ((pixman_op_t)op, s, m, d, rx, 0, mx, 0, dx, 0, w, 1);
@@ -127,7 +135,7 @@ main (int argc, char **argv)
 	    vt_begin ("Comp");
 	    vt_int ("op", op); vt_int ("ca", ca); vt_int ("hasmask", hasmask);
 	    vt_w32 ("sf", sfcode); vt_w32 ("mf", mfcode); vt_w32 ("df", dfcode);
-	    vt_int ("pres", pres); vt_int ("sw", sw); vt_int ("sx", sx); vt_int ("mw", mw); vt_int ("mx", mx);
+	    vt_int ("pres", pres); vt_int ("mpres", mpres); vt_int ("sw", sw); vt_int ("sx", sx); vt_int ("mw", mw); vt_int ("mx", mx);
 	    vt_int ("dw", dw); vt_int ("dx", dx); vt_int ("w", w); vt_int ("fresh", fresh);
 	    vt_bytes ("src", src0, slen);
 	    vt_bytes ("srcafter", src, slen);
